@@ -53,7 +53,6 @@ RUNTIME = {
 RUNTIME["C16"] = (["single", "array", "nc", "enumf", "custom", "mixed", "base", "bld", "dbgf"],
                   "(group, case) pairs whose complete monitored workload (getters, with_/set_, array indices in and out of range, histories, builder, constants, Debug) produced identical observation digests under every build profile with no panic other than for an out-of-range array index",
                   ["w=S", "|full|", "|top|", "s128|", "s128arb|", "range[]", "list"])
-RUNTIME["C10rt"] = (["enumf"], "", [])
 
 TECH = "reference-model monitor at the API boundary of the generated code"
 
@@ -129,6 +128,26 @@ class Result:
 def merge_counts(dst, src):
     for k, v in src.items():
         dst[k] = dst.get(k, 0) + v
+
+
+def run_groups(prop, tier, seed, groups, extra_args=()):
+    """builds the groups under every profile of the tier and runs the monitors of `prop`; returns (reports, dropped)"""
+    profiles = tier_profiles(tier)
+    dropped = []
+    with build.Lock():
+        build.snapshot()
+        ws = build.Workspace(tier, seed)
+        ws.generate(groups)
+        for prof in profiles:
+            dropped += ws.build_resilient(groups, prof)
+    reports = []
+    for prof in profiles:
+        for g in groups:
+            r = ws.run(g, prof, prop, extra=extra_args)
+            if r.get("worker_threads_crashed"):
+                raise Inconclusive("a worker thread of the runner crashed (%s/%s)" % (g, prof))
+            reports.append(r)
+    return reports, dropped
 
 
 def runtime_check(prop, tier, seed, groups=None, extra_args=()):
